@@ -755,7 +755,21 @@ def _ctor(real):
 
 zeros = _ctor(rnp.zeros)
 ones = _ctor(rnp.ones)
-empty = _ctor(rnp.zeros)  # np.empty: arbitrary contents; zeros is one admissible choice (reads of uninitialised entries are not modelled)
+def empty(shape, dtype=float, **k):
+    """np.empty: ARBITRARY contents.  Floating-point entries are fresh unconstrained symbols ('uninitialised!k'), so that a result
+    which depends on an entry that was never written cannot satisfy its specification (it would depend on whatever the memory
+    held: other runs, other optimizations).  Other dtypes: zeros (one admissible choice)."""
+    base = rnp.zeros(shape, dtype=dtype)
+    r = wrap(base)
+    if rnp.issubdtype(base.dtype, rnp.floating) and base.size:
+        c = sym._CTX  # noqa: SLF001  (None outside a symbolic run)
+        if c is not None:
+            o = r.view(rnp.ndarray)
+            for idx in rnp.ndindex(*base.shape):
+                o[idx] = XR(z3.Real(c.fresh_name("uninitialised")))
+    return r
+
+
 full = _ctor(rnp.full)
 arange = rnp.arange  # index arrays stay plain
 eye = _ctor(rnp.eye)
@@ -769,7 +783,9 @@ def ones_like(a, dtype=None, **k):
     return wrap(rnp.ones(rnp.shape(a), dtype=dtype or rnp.float64))
 
 
-empty_like = zeros_like
+def empty_like(a, dtype=None, **k):
+    dt = dtype or (getattr(a, "sdtype", None) if isinstance(a, SymArray) else getattr(a, "dtype", rnp.float64)) or rnp.float64
+    return empty(rnp.shape(a), dtype=dt)
 
 
 def where_(cond, x=None, y=None):
@@ -852,6 +868,24 @@ class _UfuncShim:
             return getattr(rnp, self._name).reduce(a, axis=axis, keepdims=keepdims, **kw)
         ident = {"add": rnp.int64(0), "multiply": rnp.int64(1), "logical_or": rnp.bool_(False), "logical_and": rnp.bool_(True)}.get(self._name)
         return reduce_axis(SCALAR_OPS[self._name], a, axis=axis, keepdims=keepdims, initial=initial if initial is not None else ident, sdtype=rnp.bool_ if self._name in _BOOL_RESULT else None)
+
+
+def putmask(a, mask, values):
+    """numpy.putmask: a.flat[n] = values.flat[n % values.size] for every n where mask.flat[n] (in place; the values are cycled over
+    ALL positions, not over the selected ones)."""
+    if not has_sym([a, mask, values]) and not any(isinstance(t, SymArray) for t in (a, mask, values)):
+        return rnp.putmask(a, mask, values)
+    if not isinstance(a, rnp.ndarray):
+        raise Unsupported("putmask on a non-array")
+    m = rnp.broadcast_to(_obj(mask), a.shape)
+    v = _obj(values).reshape(-1)
+    if v.size == 0:
+        raise Unsupported("putmask with no values")
+    cyc = rnp.empty(a.size, dtype=object)
+    for n in range(a.size):
+        cyc[n] = v[n % v.size]
+    a[...] = elementwise(sym.s_where, m, cyc.reshape(a.shape), a)
+    return None
 
 
 def nan_to_num(a, copy=True, **kw):
@@ -1159,7 +1193,7 @@ class _Shim:
         d.update(
             array=array, asarray=asarray, asanyarray=asarray, zeros=zeros, ones=ones, empty=empty, full=full, arange=arange, eye=eye,
             zeros_like=zeros_like, ones_like=ones_like, empty_like=empty_like,
-            where=where_, flatnonzero=flatnonzero, nonzero=nonzero, argwhere=argwhere, nan_to_num=nan_to_num, sum=sum_, any=any_, all=all_, count_nonzero=count_nonzero,
+            where=where_, flatnonzero=flatnonzero, nonzero=nonzero, argwhere=argwhere, nan_to_num=nan_to_num, putmask=putmask, sum=sum_, any=any_, all=all_, count_nonzero=count_nonzero,
             dot=dot, matmul=matmul, abs=abs_, clip=clip, allclose=allclose, isclose=isclose, max=amax, amax=amax, min=amin, amin=amin, argsort=argsort, argmin=argmin, cumsum=cumsum,
             linalg=_Linalg(), ndarray=rnp.ndarray,
         )
